@@ -144,6 +144,22 @@ class Lits:
 
 
 # ====================================================================== R-CONST
+def const_int_of(F, t):
+    """integer value of a term that is a literal or a `const` item of integer type, else None"""
+    t = strip(t)
+    if t[0] == "const" and isinstance(t[1], dict):
+        c = t[1]
+        if "int" in c:
+            try:
+                return int(c["int"])
+            except (TypeError, ValueError):
+                return None
+        d = c.get("uneval_def")
+        if d and "promoted" not in c and d in F.consts and "int" in F.consts[d]:
+            return int(F.consts[d]["int"])
+    return None
+
+
 def rule_const(prop, repo):
     F, P = repo.F, repo.P
     t, q, r = P.t, P.q, P.r
@@ -181,7 +197,9 @@ def rule_const(prop, repo):
         rsq, mod, inv = repo.static_of(a[1]), repo.static_of(a[2]), repo.static_of(a[3])
         chk("%s R^2 (%s)" % (short, rsq), repo.static_int(rsq) if rsq else None, pow(2, 512, pval), "2^512 mod %s" % pname)
         chk("%s modulus used by new (%s)" % (short, mod), mod, info["modulus"], "the type's own modulus")
-        chk("%s -p^-1 mod 2^64 (%s)" % (short, inv), repo.static_int(inv) if inv else None, (-pow(pval, -1, 2 ** 64)) % 2 ** 64, "-%s^-1 mod 2^64" % pname)
+        inv_want = (-pow(pval, -1, 2 ** 64)) % 2 ** 64
+        inv_val = repo.static_int(inv) if inv else const_int_of(F, a[3])      # a lazy static, a `const` item or a literal
+        chk("%s -p^-1 mod 2^64 (%s)" % (short, inv or "const"), inv_val, inv_want, "-%s^-1 mod 2^64" % pname)
         ob = [b for b in F.fn_bodies() if b.name == "one" and b.rec.get("impl_self_adt") == ap and (b.impl_trait or "").endswith("One")]
         if len(ob) == 1:
             rv = repo.tb(ob[0]).return_value()
@@ -207,8 +225,10 @@ def rule_const(prop, repo):
                     sts = [s for s in sts if s]
                     n += 1
                     allowed = {info["modulus"], rsq, inv}
-                    if not sts or any(s not in allowed for s in sts):
-                        bad.append((b.rec["path"], d.split("::")[-1], sts))
+                    # a 64-bit constant operand (the Montgomery factor spelled as a `const` or literal) must be this field's
+                    wrong_inv = [hex(v) for v in (const_int_of(F, x) for x in args) if v is not None and v >= 2 ** 32 and v != inv_want]
+                    if not sts or any(s not in allowed for s in sts) or wrong_inv:
+                        bad.append((b.rec["path"], d.split("::")[-1], sts + wrong_inv))
         R.check(not bad and n >= 8, "%s:const:%s:pairing-of-constants" % (prop, short), "%s arithmetic uses constants of another field: %s" % (short, bad[:3]),
                 sample={"type": short, "modular_call_sites": n, "constants": sorted(x for x in (info["modulus"], rsq, inv) if x)})
     # pairing constants (rustc const evaluation), identified by value: every large integer literal of the pairing module must
@@ -568,11 +588,34 @@ class FrobEval:
         return out
 
 
-def classify_twist(repo, b, L=None):
+def classify_twist_multi(repo, b, L=None):
+    """for a (&G2) -> (G2, G2, …) helper: [(power e or None, sign ±1, description)] per returned point"""
+    L = L or Lits(repo)
+    q = repo.P.q
+    a1 = pow(-2 % q, (q - 1) // 12, q)
+    a2 = pow(-2 % q, 2 * (q - 1) // 12, q)
+    rv = strip(repo.tb(b).return_value())
+    if not (rv[0] == "agg" and rv[1] in ("tuple", None) or (rv[0] == "agg" and not isinstance(rv[1], str))):
+        if rv[0] != "agg":
+            return None
+    out = []
+    for comp in rv[3]:
+        sign = 1
+        c = strip(comp)
+        while c[0] == "call" and c[1].name == "neg" and len(c[2]) == 1:
+            sign = -sign
+            c = strip(c[2][0])
+        cs, desc = classify_twist(repo, b, L, rv=c)
+        e = 1 if cs == [(0, True, 1), (1, True, 1), (2, True, a1)] else 2 if cs == [(0, False, 1), (1, False, 1), (2, False, a2)] else None
+        out.append((e, sign, desc))
+    return out
+
+
+def classify_twist(repo, b, L=None, rv=None):
     """[(source coordinate, conjugated?, Fq factor)] for the three coordinates a (&G2) -> G2 helper returns, or None."""
     L = L or Lits(repo)
     q = repo.P.q
-    rv = repo.tb(b).return_value()
+    rv = repo.tb(b).return_value() if rv is None else rv
     for _ in range(3):
         if rv[0] == "call" and not (len(rv[2]) == 3 and rv[1].d.startswith("crate::groups::")):
             e = expand_call(repo, rv, same_file(repo, b))
@@ -643,6 +686,13 @@ def twist_powers(repo, roles):
             out[b.rec["path"]] = 1
         elif cs == [(0, False, 1), (1, False, 1), (2, False, a2)]:
             out[b.rec["path"]] = 2
+    for b in getattr(roles, "twist_frob_multi", []):
+        try:
+            comps = classify_twist_multi(repo, b, L)
+        except FactsError:
+            comps = None
+        if comps and all(c[0] is not None for c in comps):
+            out[b.rec["path"]] = tuple((c[0], c[1]) for c in comps)
     return out
 
 
@@ -692,8 +742,16 @@ def rule_frobenius(prop, repo):
         got_powers[e] = got_powers.get(e, 0) + 1
         R.check(e is not None, "%s:frobenius:twist:%s" % (prop, b.name), "%s is neither π = (x̄, ȳ, z̄·α1) nor π² = (x, y, z·α2): %s" % (b.rec["path"], desc),
                 b.file_line(), b.rec["path"], sample={"fn": b.rec["path"], "frobenius_power": e, "coords": desc[:120]})
-    if len(roles.twist_frob) < 2:
-        R.fail_closed("%s:frobenius:twist:anchor" % prop, "expected the two twist Frobenius helpers (&G2) -> G2 in the pairing module, found %s" % [b.rec["path"] for b in roles.twist_frob])
+    for b in getattr(roles, "twist_frob_multi", []):
+        R.instance()
+        comps = classify_twist_multi(repo, b, L)
+        okm = bool(comps) and all(c[0] is not None for c in comps)
+        for c in comps or []:
+            got_powers[c[0]] = got_powers.get(c[0], 0) + 1
+        R.check(okm, "%s:frobenius:twist:%s" % (prop, b.name), "%s does not return ±π / ±π² images of its argument: %s" % (b.rec["path"], [c[2][:80] for c in comps or []]),
+                b.file_line(), b.rec["path"], sample={"fn": b.rec["path"], "images": [(c[0], c[1]) for c in comps or []]})
+    if not (got_powers.get(1) and got_powers.get(2)):
+        R.fail_closed("%s:frobenius:twist:anchor" % prop, "expected twist Frobenius helpers for π and π² (&G2) -> G2 in the pairing module, found %s" % [b.rec["path"] for b in list(roles.twist_frob) + list(getattr(roles, "twist_frob_multi", []))])
     # prepared path: the (point, factor) Frobenius helper is applied with f = α1 (twice)
     pb = roles.producer
     R.instance()
